@@ -182,7 +182,7 @@ def desugar_once(body):
         nf = dict(_NEXT)
         nf['self_ty'] = it_ty[5:] if by_ref else it_ty
         nf['gargs'] = [nf['self_ty']]
-        w.blocks[hdr]['term'] = {'t': 'call', 'func': nf, 'args': [_op(itr_l)], 'dest': _pl(n_l), 'target': sw, 'unwind': None,
+        w.blocks[hdr]['term'] = {'t': 'call', 'func': nf, 'args': [_op(itr_l, w.locals[itr_l]['ty'])], 'dest': _pl(n_l), 'target': sw, 'unwind': None,
                                  'span': span, 'fn_span': t.get('fn_span'), 'syn': kind}
         w.blocks[sw]['stmts'].append(_assign(_pl(d_l, 'isize'), {'r': 'discr', 'place': _pl(n_l)}, span))
         w.blocks[sw]['term'] = {'t': 'switch', 'discr': _op(d_l, 'isize'), 'arms': [['0', ex_none]], 'otherwise': bodyb, 'span': span}
@@ -629,7 +629,7 @@ def with_yield_loop(body):
     sw = w.block([_assign(_pl(d_l, 'isize'), {'r': 'discr', 'place': _pl(n_l)}, span)], None)
     bodyb = w.block([_assign(_pl(x_l, '?item'), {'r': 'use', 'a': _op(n_l, '?item', [{'downcast': 'Some', 'vi': 1},
                      {'f': 0, 'n': '0', 'of': 'std::option::Option<?item>', 'ty': '?item'}])}, span)], None)
-    w.blocks[hdr]['term'] = {'t': 'call', 'func': dict(_NEXT), 'args': [_op(itr_l)], 'dest': _pl(n_l), 'target': sw, 'unwind': None,
+    w.blocks[hdr]['term'] = {'t': 'call', 'func': dict(_NEXT), 'args': [_op(itr_l, w.locals[itr_l]['ty'])], 'dest': _pl(n_l), 'target': sw, 'unwind': None,
                              'span': span, 'fn_span': span, 'syn': 'yield'}
     w.blocks[sw]['term'] = {'t': 'switch', 'discr': _op(d_l, 'isize'), 'arms': [['0', fin]], 'otherwise': bodyb, 'span': span}
     w.blocks[bodyb]['term'] = {'t': 'call', 'func': dict(_YIELD), 'args': [_op(x_l, '?item')], 'dest': _pl(u_l, '()'), 'target': hdr,
